@@ -136,11 +136,21 @@ type Sched struct {
 	Directed []int
 	dirPos   int
 	DirErr   string
+	// stall injection: the thread StallThread, once it is waiting in a spin loop, polls StallPolls
+	// times in a row while every other thread stands still (a predecessor that is merely slow:
+	// blocked in I/O, descheduled). An unbounded wait is unaffected; a BOUNDED wait gives up.
+	StallThread int
+	StallPolls  int64
+	stallLeft   int64
+	StallUsed   int64 // polls actually performed in the stall
 }
 
 var active *Sched
 
 func Active() *Sched { return active }
+
+// ArmStall sets the number of consecutive polls of the stalled thread.
+func (s *Sched) ArmStall(thread int, polls int64) { s.StallThread, s.StallPolls, s.stallLeft = thread, polls, polls }
 
 func New(prefix []int) *Sched {
 	s := &Sched{Prefix: prefix, epoch: map[unsafe.Pointer]uint64{}, Horizon: 20000, FaultThread: -1, streamOps: map[int]int{}, objIdx: map[unsafe.Pointer]int{}, Holder: -1, MergeAt: -1}
@@ -511,9 +521,13 @@ func StreamOp(obj unsafe.Pointer, detail string) {
 	}
 	n := s.streamOps[t.ID]
 	s.streamOps[t.ID] = n + 1
-	if !s.FaultFired && s.FaultSite == "stream" && s.FaultThread == t.ID && s.FaultNth == n {
+	if !s.FaultFired && (s.FaultSite == "stream" || s.FaultSite == "stream-str") && s.FaultThread == t.ID && s.FaultNth == n {
 		s.FaultFired = true
 		s.note(Event{Kind: OpFault, Obj: obj, Detail: detail})
+		if s.FaultSite == "stream-str" {
+			// the library's own bitstreams raise some failures as plain strings, not error values
+			panic(fmt.Sprintf("injected failure (string value) in stream op %d (%s) of thread %d", n, detail, t.ID))
+		}
 		panic(&InjectedFault{fmt.Sprintf("stream op %d (%s) of thread %d", n, detail, t.ID)})
 	}
 }
@@ -538,9 +552,19 @@ func (s *Sched) wrote(addr unsafe.Pointer) {
 
 func (s *Sched) doLoad(addr unsafe.Pointer, read func() int64) int64 {
 	t := s.cur
+	if s.StallThread == t.ID && s.stallLeft > 0 && s.StallUsed > 0 && t.lastAddr == addr {
+		s.stallLeft--
+		s.StallUsed++
+		return read()
+	}
 	site := callerPC()
 	if t.ID != 0 && t.lastAddr == addr && t.lastSite == site && t.lastEp == s.epoch[addr] {
 		t.spinning = true
+		if s.StallThread == t.ID && s.stallLeft > 0 {
+			s.stallLeft--
+			s.StallUsed++
+			return read() // nobody else runs: same value, no scheduling point
+		}
 	}
 	s.point(OpLoad, addr)
 	v := read()
